@@ -2,8 +2,11 @@ package harness
 
 import (
 	"context"
+	"crypto"
+	"crypto/elliptic"
 	"encoding/json"
 	"fmt"
+	"math/big"
 	"reflect"
 	"strings"
 	"time"
@@ -189,7 +192,18 @@ func (r *RespSubst) violating() bool {
 	return false
 }
 
+// SignerSc drives the crypto.Signer helper (Client.Signer + Sign): four exchanges (GetAttributes of the
+// private key, GetAttributes of the public key, Get of the public key, Sign), any of which may be falsified.
+type SignerSc struct {
+	Alg     int  `json:"alg"`      // algorithm the key attributes state: 0 RSA, 1 EC, 2 ECDSA, 3 AES (unsupported)
+	Key     int  `json:"key"`      // public key material actually returned: 0 RSA, 1 EC P-256
+	SigLen  int  `json:"sig_len"`  // length of the signature the server returns
+	SubstAt int  `json:"subst_at"` // which of the four responses the substitution applies to
+	NoLink  bool `json:"no_link,omitempty"`
+}
+
 type C12Sc struct {
+	Signer    *SignerSc  `json:"signer,omitempty"`
 	Op        int        `json:"op"` // index into opCases; -1 = batch of two
 	Batch     []int      `json:"batch,omitempty"`
 	Subst     *RespSubst `json:"subst,omitempty"`
@@ -264,6 +278,15 @@ func genRespSubst(g *simrt.Tape) *RespSubst {
 
 func genC12(g *simrt.Tape, tier string) any {
 	sc := &C12Sc{Op: g.Draw(len(opCases))}
+	if g.Draw(8) == 0 {
+		sc.Signer = &SignerSc{Alg: g.Draw(4), Key: g.Draw(2), SigLen: []int{0, 8, 64, 71, 256}[g.Draw(5)], SubstAt: g.Draw(4), NoLink: g.Draw(8) == 0}
+		sc.Op = 0
+		if g.Draw(3) != 0 {
+			sc.Subst = genRespSubst(g)
+		}
+		sc.Chunk = []int{simnet.ChunkMax, simnet.ChunkRandom}[g.Draw(2)]
+		return sc
+	}
 	if g.Draw(6) == 0 {
 		sc.Op = -1
 		sc.Batch = []int{g.Draw(len(opCases) - 1), g.Draw(len(opCases) - 1)}
@@ -312,6 +335,19 @@ func c12Floor(tier string) []*C12Sc {
 			out = append(out, &C12Sc{Op: op, Subst: sb})
 		}
 	}
+	// the crypto.Signer helper: every algorithm x key material x signature length, and every single substitution at every exchange
+	for alg := 0; alg < 4; alg++ {
+		for key := 0; key < 2; key++ {
+			for _, sl := range []int{0, 8, 64, 71, 256} {
+				out = append(out, &C12Sc{Signer: &SignerSc{Alg: alg, Key: key, SigLen: sl}})
+			}
+			for at := 0; at < 4; at++ {
+				for _, sb := range singles[1:] {
+					out = append(out, &C12Sc{Signer: &SignerSc{Alg: alg, Key: key, SigLen: 64, SubstAt: at}, Subst: sb})
+				}
+			}
+		}
+	}
 	// discovery exchange
 	for st := 1; st <= 4; st++ {
 		for _, rs := range []int{0, 5, 1, 99} {
@@ -355,6 +391,60 @@ type c12Sent struct {
 
 // buildResponse builds the (possibly falsified) response to req.
 func buildResponse(req *kmip.RequestMessage, sb *RespSubst, sent *[]c12Sent) *kmip.ResponseMessage {
+	return buildResponseWith(req, sb, sent, func(bi kmip.RequestBatchItem) kmip.OperationPayload { return respFor(bi.Operation) })
+}
+
+var (
+	rsaModulus = func() *big.Int {
+		n, _ := new(big.Int).SetString("c7f1bc1dfb1be82d244aef01228c1409c198894ca9e21430f1669b4aa3864c9f37f3038d4d5f3f0c6f0d6d7f0c1c2f64b6ffe44a0b2b1e43e5a9e7b2d55f3a5e0f3c0b9a8d7c6b5a49382716059f8e7d6c5b4a39281706f5e4d3c2b1a09f8e7d6c5b4a392817060504030201ffeeddccbbaa99887766554433221100ffeeddccbb5d", 16)
+		return n
+	}()
+)
+
+func signerResp(sg *SignerSc, bi kmip.RequestBatchItem) kmip.OperationPayload {
+	id := ""
+	if p, ok := bi.RequestPayload.(*payloads.ActivateRequestPayload); ok {
+		id = p.UniqueIdentifier
+	}
+	alg := []kmip.CryptographicAlgorithm{kmip.CryptographicAlgorithmRSA, kmip.CryptographicAlgorithmEC, kmip.CryptographicAlgorithmECDSA, kmip.CryptographicAlgorithmAES}[sg.Alg%4]
+	switch bi.Operation {
+	case kmip.OperationGetAttributes:
+		ot, link, usage := kmip.ObjectTypePrivateKey, kmip.Link{LinkType: kmip.LinkTypePublicKeyLink, LinkedObjectIdentifier: "pub"}, kmip.CryptographicUsageSign
+		if id == "pub" {
+			ot, link, usage = kmip.ObjectTypePublicKey, kmip.Link{LinkType: kmip.LinkTypePrivateKeyLink, LinkedObjectIdentifier: "priv"}, kmip.CryptographicUsageVerify
+		}
+		attrs := []kmip.Attribute{
+			{AttributeName: kmip.AttributeNameObjectType, AttributeValue: ot},
+			{AttributeName: kmip.AttributeNameCryptographicAlgorithm, AttributeValue: alg},
+			{AttributeName: kmip.AttributeNameCryptographicUsageMask, AttributeValue: usage},
+		}
+		if !sg.NoLink {
+			attrs = append(attrs, kmip.Attribute{AttributeName: kmip.AttributeNameLink, AttributeValue: link})
+		}
+		return &payloads.GetAttributesResponsePayload{UniqueIdentifier: id, Attribute: attrs}
+	case kmip.OperationGet:
+		var kb kmip.KeyBlock
+		if sg.Key == 0 {
+			kb = kmip.KeyBlock{KeyFormatType: kmip.KeyFormatTypeTransparentRSAPublicKey, CryptographicAlgorithm: kmip.CryptographicAlgorithmRSA, CryptographicLength: 1024,
+				KeyValue: &kmip.KeyValue{Plain: &kmip.PlainKeyValue{KeyMaterial: kmip.KeyMaterial{TransparentRSAPublicKey: &kmip.TransparentRSAPublicKey{Modulus: *rsaModulus, PublicExponent: *big.NewInt(65537)}}}}}
+		} else {
+			p := elliptic.P256().Params()
+			q := append([]byte{4}, append(p.Gx.FillBytes(make([]byte, 32)), p.Gy.FillBytes(make([]byte, 32))...)...)
+			kb = kmip.KeyBlock{KeyFormatType: kmip.KeyFormatTypeTransparentECPublicKey, CryptographicAlgorithm: kmip.CryptographicAlgorithmEC, CryptographicLength: 256,
+				KeyValue: &kmip.KeyValue{Plain: &kmip.PlainKeyValue{KeyMaterial: kmip.KeyMaterial{TransparentECPublicKey: &kmip.TransparentECPublicKey{RecommendedCurve: kmip.RecommendedCurveP_256, QString: q}}}}}
+		}
+		return &payloads.GetResponsePayload{ObjectType: kmip.ObjectTypePublicKey, UniqueIdentifier: id, Object: &kmip.PublicKey{KeyBlock: kb}}
+	case kmip.OperationSign:
+		sig := make([]byte, sg.SigLen)
+		for i := range sig {
+			sig[i] = byte(i + 1)
+		}
+		return &payloads.SignResponsePayload{UniqueIdentifier: id, SignatureData: sig}
+	}
+	return respFor(bi.Operation)
+}
+
+func buildResponseWith(req *kmip.RequestMessage, sb *RespSubst, sent *[]c12Sent, respOf func(kmip.RequestBatchItem) kmip.OperationPayload) *kmip.ResponseMessage {
 	resp := &kmip.ResponseMessage{Header: kmip.ResponseHeader{ProtocolVersion: req.Header.ProtocolVersion, TimeStamp: time.Unix(1700000000, 0).UTC()}}
 	for i, bi := range req.BatchItem {
 		var it ItemSubst
@@ -377,7 +467,7 @@ func buildResponse(req *kmip.RequestMessage, sb *RespSubst, sent *[]c12Sent) *km
 		}
 		switch it.Payload {
 		case "":
-			ri.ResponsePayload = respFor(bi.Operation)
+			ri.ResponsePayload = respOf(bi)
 		case "other":
 			ri.ResponsePayload = opCases[it.PayloadOp%len(opCases)].resp()
 		case "opaque":
@@ -421,8 +511,20 @@ func execC12(x *X, scAny any) {
 	w.loose = true
 	var sent []c12Sent
 	var wire [][]byte
+	nSigner := 0
 	w.rawRespond = func(w *clientWorld, req *kmip.RequestMessage, connIdx int) []byte {
 		sb := sc.Subst
+		if sc.Signer != nil && !(len(req.BatchItem) == 1 && req.BatchItem[0].Operation == kmip.OperationDiscoverVersions) {
+			idx := nSigner
+			nSigner++
+			if idx != sc.Signer.SubstAt {
+				sb = nil
+			} else if sb != nil {
+				s.Fault("peer-substitute")
+			}
+			sent = sent[:0]
+			return ttlv.MarshalTTLV(buildResponseWith(req, sb, &sent, func(bi kmip.RequestBatchItem) kmip.OperationPayload { return signerResp(sc.Signer, bi) }))
+		}
 		if len(req.BatchItem) == 1 && req.BatchItem[0].Operation == kmip.OperationDiscoverVersions {
 			sb = sc.Discovery
 			return ttlv.MarshalTTLV(buildResponse(req, sb, nil))
@@ -462,7 +564,15 @@ func execC12(x *X, scAny any) {
 		}
 		w.client = c
 		ctx := context.Background()
-		if sc.Op >= 0 {
+		if sc.Signer != nil {
+			signer, err := c.Signer(ctx, "priv", "")
+			if err != nil {
+				res.err = err
+			} else {
+				digest := make([]byte, 32)
+				res.val, res.err = signer.Sign(nil, digest, crypto.SHA256)
+			}
+		} else if sc.Op >= 0 {
 			res.val, res.err = opCases[sc.Op].call(c, ctx)
 		} else {
 			var pls []kmip.OperationPayload
@@ -513,6 +623,20 @@ func execC12(x *X, scAny any) {
 		return
 	}
 	countsOK := sc.Subst == nil || (sc.Subst.HeaderDelta == 0 && sc.Subst.ItemsDelta == 0)
+	if sc.Signer != nil {
+		// no panic (checked above) and a result or an error; a consistent, unfalsified server must be accepted
+		consistent := !sc.Subst.violating() && !sc.Signer.NoLink && sc.Signer.SigLen > 0 &&
+			((sc.Signer.Alg == 0 && sc.Signer.Key == 0) || ((sc.Signer.Alg == 1 || sc.Signer.Alg == 2) && sc.Signer.Key == 1))
+		if res.err != nil && consistent {
+			x.Reportf("C12.correct-response-rejected", "Signer", "Signer/Sign failed with %v although every response was conformant (alg=%d key=%d siglen=%d)", res.err, sc.Signer.Alg, sc.Signer.Key, sc.Signer.SigLen)
+		}
+		if res.err == nil {
+			if _, ok := res.val.([]byte); !ok {
+				x.Reportf("C12.wrong-payload-type", "Signer", "Sign returned (%T, nil)", res.val)
+			}
+		}
+		return
+	}
 	if sc.Op >= 0 {
 		oc := opCases[sc.Op]
 		var it ItemSubst
